@@ -59,7 +59,8 @@ const (
 const (
 	fkHeaders     = iota // HEADERS, END_HEADERS
 	fkHeadersES          // HEADERS, END_HEADERS|END_STREAM
-	fkHeadersOpen        // HEADERS without END_HEADERS (empty fragment continues below)
+	fkHeadersOpen        // HEADERS without END_HEADERS (a CONTINUATION has to follow)
+	fkHeadersOpenES      // HEADERS with END_STREAM but without END_HEADERS
 	fkCont               // CONTINUATION, END_HEADERS
 	fkData               // DATA, 1 byte
 	fkDataES             // DATA, 1 byte, END_STREAM
@@ -102,9 +103,9 @@ func (c *refConn) refStep(k int, id uint32) (allowed int, code ErrorCode) {
 		return rxNone, 0
 	}
 	switch k {
-	case fkHeaders, fkHeadersES, fkHeadersOpen:
-		es := k == fkHeadersES
-		eh := k != fkHeadersOpen
+	case fkHeaders, fkHeadersES, fkHeadersOpen, fkHeadersOpenES:
+		es := k == fkHeadersES || k == fkHeadersOpenES
+		eh := k != fkHeadersOpen && k != fkHeadersOpenES
 		switch s.st {
 		case rsIdle:
 			if id < c.lastID { // 5.1.1: ids must increase
@@ -244,6 +245,8 @@ func vKindFrame(k int, id uint32, digit byte, trailer bool) []byte {
 		return vFrame(0x1, 0x5, id, blkGet)
 	case fkHeadersOpen:
 		return vFrame(0x1, 0x0, id, blk)
+	case fkHeadersOpenES:
+		return vFrame(0x1, 0x1, id, blkGet)
 	case fkCont:
 		return vFrame(0x9, 0x4, id, nil)
 	case fkData:
@@ -263,8 +266,8 @@ func vKindFrame(k int, id uint32, digit byte, trailer bool) []byte {
 	}
 }
 
-// Every sequence of 3 (quick) / 5 (thorough) frames drawn from eleven kinds
-// (HEADERS with and without END_STREAM/END_HEADERS, CONTINUATION, DATA with
+// Every sequence of 3 (quick) / 5 (thorough) frames drawn from twelve kinds
+// (HEADERS with every combination of END_STREAM and END_HEADERS, CONTINUATION, DATA with
 // and without END_STREAM, RST_STREAM, WINDOW_UPDATE of 1 and of 0, PRIORITY,
 // self-dependent PRIORITY) on streams 1 and 3, through the real read loop,
 // stream loop and handlers: after each frame the server's reaction (nothing,
